@@ -159,11 +159,14 @@ def quota_dec(ctx):
     PUBLISH write there; the quota is consulted nowhere else in the outbound handler."""
     hm = ctx.outbound_handler()
     effs = ctx.effects(hm)
-    guards = type_guards(ctx, hm)
-    if "PUBLISH" not in guards:
-        raise AnchorLost("PUBLISH type guard (packet[0] >> 4 == PublishTx::PACKET_ID) in the outbound handler")
-    gbb, gsucc, gother = guards["PUBLISH"]
-    region = arm_region(hm, gsucc)
+    from outpaths import ArmPaths
+    ap = ArmPaths(ctx, hm, "AwaitAck")
+    if "PUBLISH" not in ap.classes:
+        raise AnchorLost("PUBLISH type test (packet[0] >> 4 == PublishTx::PACKET_ID) in the outbound handler")
+    gbb = [b for ty, b, _, _ in ap.sites if ty == "PUBLISH"][0]
+    gsucc = [y for ty, b, y, _ in ap.sites if ty == "PUBLISH"][0]
+    region = ap.only("PUBLISH")            # blocks that only a PUBLISH reaches (path-sensitive)
+    on_publish = ap.blocks_of("PUBLISH")
     decs = [(w.top, w.top_bb, w.st) for w in quota_writes(ctx) if w.kind == "dec" and w.top.path == hm.path]
     dec_ws = [w for w in quota_writes(ctx) if w.kind == "dec" and w.top.path == hm.path]
     out = []
@@ -173,7 +176,7 @@ def quota_dec(ctx):
         return out
     _, dbb, dst = decs[0]
     site = "%s:%d" % (hm.fn["file"], dst["line"])
-    out.append(Inst("QUOTA-DEC", "in-publish-region", dbb in region, site, "decrement in block bb%d, region(PUBLISH) entry bb%d" % (dbb, gsucc),
+    out.append(Inst("QUOTA-DEC", "in-publish-region", dbb in region, site, "decrement in block bb%d, reached by packet classes %s" % (dbb, ap.class_of_block(dbb)),
                     "only QoS>0 PUBLISH consumes quota"))
     ne = [x for x in _nonzero_edge(hm, dbb) if x[2] == "nonzero"]
     if not ne and dec_ws[0].via:
@@ -197,10 +200,19 @@ def quota_dec(ctx):
                             "Complete(Err QuotaExceeded) and nothing written or registered"))
     # Q3: every TxWrite in region(PUBLISH) is dominated by the decrement
     for e in effs:
-        if e.kind == "TxWrite" and e.bb in region:
-            out.append(Inst("QUOTA-DEC", "write-after-dec", hm.dominates(dbb, e.bb), e.site(),
-                            "PUBLISH write at bb%d %s dominated by the decrement" % (e.bb, "is" if hm.dominates(dbb, e.bb) else "is NOT"),
+        if e.kind == "TxWrite" and e.bb in on_publish:
+            pre, _n = ap.precedes("PUBLISH", {dbb}, e.bb)
+            out.append(Inst("QUOTA-DEC", "write-after-dec", pre, e.site(),
+                            "PUBLISH write at bb%d %s preceded by the decrement on every PUBLISH path" % (e.bb, "is" if pre else "is NOT"),
                             "every QoS>0 PUBLISH put on the wire consumed one slot"))
+    # ... and conversely a slot is taken only for a PUBLISH that is then put on the wire: on every path that takes the
+    # slot and returns normally (not through a failed write) the PUBLISH write follows
+    from pathutil import exit_kind
+    wbs = {e.bb for e in effs if e.kind == "TxWrite" and e.bb in on_publish}
+    fol, nfol = ap.followed_by("PUBLISH", dbb, wbs, only_ok=lambda p_: exit_kind(hm, p_) == "ok")
+    out.append(Inst("QUOTA-DEC", "dec-followed-by-write", fol, site,
+                    "on %d normal PUBLISH path(s) through the decrement the PUBLISH write %s" % (nfol, "always follows" if fol else "does NOT always follow (a refusal after the decrement leaks the slot)"),
+                    "a slot is consumed only by a PUBLISH that goes on the wire"))
     # Q7: reads of send_quota outside region(PUBLISH)
     outside = []
     for b in sorted(hm.reach):
@@ -259,7 +271,8 @@ def quota_inc(ctx):
         if arm == "otherwise":
             # the `other` arm: which variants can reach here is decided by further tests
             arm = _refine_other(hp, bb, other_vs)
-        inc_arms.setdefault(arm, []).append((bb, st))
+        for arm1 in str(arm).split("|"):      # a body shared by `A | B` patterns belongs to both arms
+            inc_arms.setdefault(arm1, []).append((bb, st))
         g = _inc_guard(hp, bb)
         g_in_helper = _inc_guard(w.body, w.bb) if w.via else []
         out.append(Inst("QUOTA-INC", "arm=%s:bounded" % arm, bool(g) or bool(g_in_helper), site,
@@ -278,7 +291,7 @@ def quota_inc(ctx):
                         "increment control dependent on lookup/delivery results: %s" % (sorted(set(bad)) or "none"),
                         "a late acknowledgement of an abandoned operation still frees its slot (C15)"))
         # precedes every `?` exit of its arm
-        entry = arms.get(arm) if arm in arms else otherwise
+        entry = arms.get(str(arm).split("|")[0]) if str(arm).split("|")[0] in arms else otherwise
         if entry is not None:
             reg = arm_region(hp, entry)
             gblocks = [d for d, _, _ in g] or [bb]
